@@ -532,8 +532,12 @@ func (r *PipelineRunner) startJobsOnWaitList(pipeline string) {
 		}
 
 		waitList = waitList[1:]
+		// Store the shortened list before starting the job: startJob re-enters this function if the job
+		// cannot be started, and must not see (and start again) jobs that were already taken off the list
+		r.waitListByPipeline[pipeline] = waitList
 
 		r.startJob(queuedJob)
+		waitList = r.waitListByPipeline[pipeline]
 
 		log.
 			WithField("component", "runner").
